@@ -1,6 +1,6 @@
 ----------------------------- MODULE TraceSize -----------------------------
 (* Binding of the events of package size (and constraint) to module Size.  *)
-EXTENDS Size, TraceBase
+EXTENDS Size, TraceBase, JsonGrammar
 
 BackIs(b, n) == b.ok /\ b.v = n
 
@@ -70,6 +70,10 @@ ImplDemands(e) ==
           <<"X.readerloop_pair", x.k = "pair" => (e.ok <=> IsOk(NewSizeRef("int", x.value, x.unit)))>> >>
   ELSE <<>>
 
+\* the harness derives "exactly one well-formed JSON value" with encoding/json; the byte-level
+\* grammar of JsonGrammar.tla must agree (a disagreement is a harness/specification error, exit 2)
+WfDemands(e) == << <<"H.wf", e.wf = JsonValid(e.in)>> >>
+
 \* the same demands belong to C08 for text-mode events and to C12 for JSON-mode events
 Prefixed(ds, p) == [i \in 1..Len(ds) |-> IF SubSeq(ds[i][1], 1, 2) = "P." THEN <<p \o SubSeq(ds[i][1], 3, Len(ds[i][1])), ds[i][2]>> ELSE ds[i]]
 
@@ -107,7 +111,7 @@ SizeStep(e) ==
     [] e.op = "size.parse" ->
          LET json == IsJSONRule(e.rule) IN
          /\ SizeParse(e.in, e.rule, IF json THEN e.doc ELSE NoDoc, IF json THEN e.wf ELSE FALSE)
-         /\ Note(Prefixed(ZParseDemands(e, zRet'), IF json THEN "C12." ELSE "C08.") \o (IF json THEN ImplDemands(e) ELSE <<>>))
+         /\ Note(Prefixed(ZParseDemands(e, zRet'), IF json THEN "C12." ELSE "C08.") \o (IF json THEN ImplDemands(e) \o WfDemands(e) ELSE <<>>))
     [] e.op = "size.utext" -> SizeUnmarshalText(e.in) /\ Note(UTextDemands(e, zRet', zRecv', e.recv))
     [] e.op = "size.new"   -> UNCHANGED zvars /\ Note(NewDemands(e))
     [] e.op = "size.bytes" -> UNCHANGED zvars /\ Note(BytesDemands(e))
